@@ -1,32 +1,9 @@
 """C03 — built blobs unpack like the input tar and index themselves consistently."""
-import json
-import os
-
-import vlib
-
-
-def _estargz_overlay(ctx):
-    """/repo/estargz is its own Go module and cannot import the root module's internal/verifutil.
-    Map the SAME shared source file into the estargz module as well (virtually, via the overlay)."""
-    orig = ctx.overlay_json
-
-    def overlay_json(only=None):
-        path = orig(only)
-        with open(path) as f:
-            d = json.load(f)
-        d["Replace"][os.path.join(vlib.REPO, "estargz", "internal", "verifutil", "util.go")] = \
-            os.path.join(vlib.OVERLAY_SRC, "internal", "verifutil", "util.go")
-        with open(path, "w") as f:
-            json.dump(d, f, indent=1)
-        return path
-
-    ctx.overlay_json = overlay_json
 
 
 def run(ctx):
     ctx.lean_obligations(["SV.Props.C03"], drivers=["svdriver_c03"])
     quick = ctx.tier == "quick"
-    _estargz_overlay(ctx)
     plan = [
         ("", "h_estargz_c03", "c03gzip", 150 if quick else 3000),
         ("zstdchunked", "h_zstd_c03", "c03zstd", 70 if quick else 1000),
@@ -39,11 +16,10 @@ def run(ctx):
                            env={"VERIF_N": n, "VERIF_MAXCHECK": 60000 if quick else 120000,
                                 "VERIF_C03_STREAM": "main"},
                            timeout=600 if quick else 3000)
-            # the candidate findings live in their own stream (own harness run), so that the main stream
-            # is silent on the unchanged tree and any model mismatch in it breaks the tie
+            # the known finding (unpack-empty-layer) lives in its own pass (own harness run), so that the
+            # main stream is silent on the unchanged tree and any model mismatch in it breaks the tie
             ctx.correspond(b, "TestVerifC03", "svdriver_c03", tag + "-findings",
-                           env={"VERIF_N": 10 if quick else 200, "VERIF_MAXCHECK": 60000,
-                                "VERIF_C03_STREAM": "findings"},
+                           env={"VERIF_N": 0, "VERIF_MAXCHECK": 60000, "VERIF_C03_STREAM": "findings"},
                            timeout=600)
     return ctx.finish(
         level="proof",
@@ -52,7 +28,7 @@ def run(ctx):
              "long names, owners, mod times incl. zero and epoch, stale landmarks and TOC entries, PAX global header, "
              "USTAR/PAX/GNU, plain/gzip/zstd input, an eStargz blob as input) x chunk size {default,<0,1,3,7,64,100,512,1000,4096} "
              "x min-chunk-size {0,1,c/2,c,3c,10000,2^20} x level x {gzip, zstd:chunked, external TOC} x workers 1..8 x "
-             "{Build with prioritized files, Writer.AppendTar (1..3 calls), AppendTarLossLess (trailing garbage)}; ~75 "
+             "{Build with prioritized files, Writer.AppendTar (1..3 calls, also with min-chunk-size), AppendTarLossLess (trailing garbage)}; ~80 "
              "hand-written scenarios per format first. Each REAL blob is split by an independent frame scan, read by the "
              "documented rules, (a) validated by the proved checkIndex, (b) compared entry by entry / member by member with "
              "the model's bookkeeping under the recorded compressor oracle, (c) judged by the property oracle "
@@ -62,7 +38,8 @@ def run(ctx):
             "gzip / zstd / tar codecs are trusted (abstract members, abstract header bytes): tar header re-encoding "
             "is compared per output, not proved",
             "entry ORDER after sortEntries is taken as given (C14)",
-            "Writer index consistency is proved for MinChunkSize = 0 or a single AppendTar call; the remaining case is "
-            "the candidate finding writer-minchunk-second-appendtar (proved false in the model, replayed on the code)",
+            "Writer index consistency holds for any number of AppendTar calls because appendTar closes the open member "
+            "first (commit 6f1f089); the pre-repair variant is kept in the model as a proved counterexample "
+            "(old_appendTar_breaks_index) and its witness is a regression scenario",
             "SHA-256 uninterpreted: TOCDigest / DiffID / chunkDigest equalities are checked per output",
         ])
